@@ -1128,6 +1128,23 @@ fn main() {
         for i in 0..random {
             v.push(gen_case(cli.seed, 1_000_000 + i, None));
         }
+        if !shared_mode {
+            // now and then a player comes back: the same name (and the same server, hence the same
+            // long-lived adapter) with another secret and another verdict of the session server
+            for i in (60..v.len()).step_by(5) {
+                // both calls have to go through the long-lived adapter of that server id
+                let long_lived = |c: &Case| c.idx % 6 == 0 || c.idx % 6 == 2;
+                if !long_lived(&v[i]) {
+                    continue;
+                }
+                if let Some(j) = (i.saturating_sub(12)..i).rev().find(|j| long_lived(&v[*j]) && v[*j].plan.kind == "profile") {
+                    let (name, server_id, category) = (v[j].name.clone(), v[j].server_id.clone(), v[j].category.clone());
+                    v[i].name = name;
+                    v[i].server_id = server_id;
+                    v[i].category = category;
+                }
+            }
+        }
         if shared_mode {
             // C01: long-lived adapter instances, the same few names (and the same server id) over and
             // over with different secrets and different verdicts of the session server
